@@ -288,6 +288,59 @@ theorem C06_reduced_fill (mask : List Bool) : ∀ (values free : List ℝ),
           | nil => simp at hv
           | cons v vs => simpa [fillMask] using this
 
+/-- writing the free parameters of a later call overwrites those of an earlier one completely -/
+theorem C06_fillMask_overwrite (mask : List Bool) : ∀ (values f1 f2 : List ℝ),
+    fillMask mask (fillMask mask values f1) f2 = fillMask mask values f2 := by
+  induction mask with
+  | nil => intro values f1 f2; simp [fillMask]
+  | cons b ms ih =>
+    intro values f1 f2
+    cases b with
+    | true =>
+      cases values with
+      | nil => simp [fillMask, ih]
+      | cons v vs => simp [fillMask, ih]
+    | false =>
+      cases f1 with
+      | nil => cases f2 <;> simp [fillMask, ih]
+      | cons g gs => cases f2 <;> simp [fillMask, ih]
+
+/-- C06 (`ReducedPopulationModel` / `ReducedErrorModel`, call histories): whatever calls were made on the
+    same reduced model before — any number, with any free parameters — the wrapped model receives the fixed
+    values and the free parameters of the CURRENT call: `compute_individual_parameters(θ', η)` after
+    `sample(θ)` transforms with `θ'`, so the transformed samples follow the density at the current
+    parameters (`C06_pop_noncentred_law` at `fillMask mask values θ'`) -/
+theorem C06_reduced_history_free (mask : List Bool) (hist : List (List ℝ)) :
+    ∀ (values free : List ℝ), reducedCall mask values hist free = fillMask mask values free := by
+  induction hist with
+  | nil => intro values free; rfl
+  | cons f hist ih =>
+    intro values free
+    have := ih (fillMask mask values f) free
+    simp only [reducedCall, reducedBuffer] at this ⊢
+    rw [this, C06_fillMask_overwrite]
+
+/-- the fixed positions of the buffer are never changed by a call -/
+theorem C06_reduced_history_buffer_fixed (mask : List Bool) (hist : List (List ℝ)) (values : List ℝ)
+    (hv : values.length = mask.length) (hh : ∀ f ∈ hist, f.length = mask.count false)
+    (i : Nat) (hi : i < mask.length) (hm : mask[i] = true) :
+    (reducedBuffer mask values hist)[i]? = values[i]? := by
+  induction hist generalizing values with
+  | nil => rfl
+  | cons f hist ih =>
+    have hf : f.length = mask.count false := hh f (by simp)
+    obtain ⟨hl, hfill⟩ := C06_reduced_fill mask values f hv hf
+    have h1 := ih (fillMask mask values f) hl (fun g hg => hh g (by simp [hg]))
+    simp only [reducedBuffer]
+    rw [h1, hfill i hi, if_pos hm]
+
+/-- a reduced model that copies its buffer before writing the current free parameters uses the previous
+    call's parameters: std fixed to 0.5, `sample([2])` then a transform at mean 5 works with mean 2 -/
+theorem C06_reduced_stale_counterexample :
+    reducedCallStale [false, true] [0, (1 / 2 : ℝ)] [[2]] [5] = [2, 1 / 2]
+    ∧ reducedCall [false, true] [0, (1 / 2 : ℝ)] [[2]] [5] = [5, 1 / 2] := by
+  constructor <;> simp [reducedCallStale, reducedCall, reducedBuffer, fillMask]
+
 /-! ## elementary population models -/
 
 /-- the transformation of one float primitive by the elementary samplers -/
